@@ -1,7 +1,7 @@
 SPECIFICATION Spec
 CONSTANTS
-  Workers = {1, 2, 3}
-  Configs <- ThreeN2
+  Workers = {1, 2}
+  Configs <- TwoN3
   MirrorGoc = FALSE
   MirrorSetup = FALSE
   MirrorDone = FALSE
